@@ -218,6 +218,16 @@ def fragment_block(names, template=CARBON, override=None, skip=None):
     return '{' + ','.join(defs) + '}'
 
 
+# base graphs in which #X stands once as a virtual node and once as a bonded node, in both orders of appearance
+MIXED_VIRTUAL = [('[#A].[#X].[#A][#X]', 'virtual first'),
+                 ('[#A][#X].[#X].[#A]', 'bonded first'),
+                 ('[#X].[#A][#A][#X]', 'virtual first, at the start'),
+                 ('[#A]([#X])[#A].[#X]', 'bonded in a branch, virtual last'),
+                 ('[#A](.[#X])[#A][#X]', 'virtual in a branch, bonded last'),
+                 ('[#X].[#A]1[#A][#X]1', 'virtual first, bonded through a ring bond'),
+                 ('[#A].[#X].[#X].[#A]=[#X]', 'two virtual ones first')]
+
+
 def two_level_cases(ast, text, rng):
     names = []
     for n in g1.flat_nodes(ast):
@@ -315,6 +325,14 @@ def cases(tier, seed):
                     for c in two_level_cases(v, vt, rng):
                         if c['fault'] == 'missing-fragment':
                             yield c
+    # 2b. a fragment-less name that occurs both as a virtual node (only '.' bonds) and as a really bonded node: the
+    #     bonded occurrence makes the string faulty wherever it stands relative to the virtual one
+    for base_g, a_def in MIXED_VIRTUAL:
+        for fr, lvl in (('#A=[$]CC[$],#X=[$]CO[$]', 'resolve'), ('#A=[$][#P][#Q][$],#X=[$][#P][$]', 'resolve-coarse')):
+            full = '{%s}.{%s}' % (base_g, fr)
+            faulty = '{%s}.{%s}' % (base_g, fr.split(',')[0])
+            yield _case('missing-fragment', lvl, full, faulty, 'SyntaxError',
+                        'definition of #X removed; #X occurs once with order-0 bonds only and once really bonded (%s)' % a_def, True)
     # 3. annotation faults on base nodes, seen through the resolver
     for ast, text in (small + big)[::7]:
         names = []
